@@ -221,3 +221,53 @@ def storedLeak {α : Type} (zero : α) (tank leakStatus isolated : Bool) (rate :
 def storedTankDemand {α : Type} (sub : α → α → α) (inflow outflow leak : α) : α := sub (sub inflow outflow) leak
 
 end Wntr.Rows
+
+/-! ### C08: `add_leak` / `remove_leak` / the two time controls, as a state machine on one node
+(mirrors `Junction/Tank.add_leak`, `remove_leak` (REPAIRED: also resets `_leak_status`), `ControlAction(node,'leak_status',b)`,
+`WaterNetworkModel.add_control` raising ValueError on a duplicate name) -/
+namespace Wntr.Rows
+
+structure LeakState where
+  leak : Bool := false
+  status : Bool := false
+  area : Rat := 0
+  cd : Rat := 0
+  startCtl : Option Int := none     -- threshold of control `<kind><name>start_leak_control`, if registered
+  endCtl : Option Int := none
+  deriving Repr, DecidableEq, Inhabited
+
+inductive LeakOp where
+  | add (area cd : Rat) (start stop : Option Int)
+  | remove
+  | fireStart     -- the start control's action runs (presolve, sim_time = start)
+  | fireEnd
+  deriving Repr, DecidableEq, Inhabited
+
+inductive Outcome where
+  | ok | valueError
+  deriving Repr, DecidableEq, Inhabited
+
+def LeakState.step (s : LeakState) : LeakOp → LeakState × Outcome
+  | .add area cd start stop =>
+    let s1 := { s with leak := true, area := area, cd := cd }
+    match start with
+    | some t =>
+      if s1.startCtl.isSome then (s1, .valueError)      -- add_control: name already used (state already updated)
+      else
+        let s2 := { s1 with startCtl := some t }
+        match stop with
+        | some u => if s2.endCtl.isSome then (s2, .valueError) else ({ s2 with endCtl := some u }, .ok)
+        | none => (s2, .ok)
+    | none =>
+      match stop with
+      | some u => if s1.endCtl.isSome then (s1, .valueError) else ({ s1 with endCtl := some u }, .ok)
+      | none => (s1, .ok)
+  | .remove => ({ s with leak := false, status := false, startCtl := none, endCtl := none }, .ok)
+  | .fireStart => (if s.startCtl.isSome then { s with status := true } else s, .ok)
+  | .fireEnd => (if s.endCtl.isSome then { s with status := false } else s, .ok)
+
+def LeakState.run (s : LeakState) : List LeakOp → LeakState
+  | [] => s
+  | op :: rest => ((s.step op).1).run rest
+
+end Wntr.Rows
